@@ -234,6 +234,12 @@ fn jobs(tier: Tier) -> Vec<Job> {
 			v.push(Job { fmt, comp: 0, name: format!("strip of {n} blocks at z={z}"), tiles: strip.clone() });
 		}
 	}
+	// above the sizes at which the PMTiles writer switches to leaf directories (quick: only the tail of the history
+	// and the complete file are judged, see `tail_only`)
+	if tier == Tier::Quick {
+		let big = tilesets::family_dense(8, 60, 60, 130, 130, 12);
+		v.push(Job { fmt: Fmt::Pmtiles, comp: 0, name: "dense 130x130 at z=8 (leaf directories), tail of the history".into(), tiles: big });
+	}
 	if tier == Tier::Thorough {
 		let big = tilesets::family_dense(8, 60, 60, 130, 130, 12);
 		v.push(Job { fmt: Fmt::Pmtiles, comp: 0, name: "dense 130x130 at z=8 (leaf directories)".into(), tiles: big });
@@ -272,7 +278,11 @@ pub fn run(ctx: Arc<Ctx>) {
 		let last_write = log.iter().rposition(|o| matches!(o, WOp::WriteStart { .. }));
 		let first_write = log.iter().position(|o| op_len(o) > 0);
 		let total_ops = log.len();
+		let tail_only = j.name.ends_with("tail of the history");
 		for k in 0..=total_ops {
+			if tail_only && k + 6 < total_ops {
+				continue;
+			}
 			let mut cuts = vec![0usize];
 			if k < total_ops {
 				cuts.extend(cuts_for(&log[k], Some(k) == last_write || Some(k) == first_write));
@@ -333,7 +343,7 @@ pub fn run(ctx: Arc<Ctx>) {
 		}
 		// the same history replayed through the real DataWriterFile::from_path onto a destination that
 		// already holds a previous generation (a complete container of the same format / a longer file of 0xAA)
-		if j.tiles.len() <= 200 {
+		if j.tiles.len() <= 200 && !tail_only {
 			rewrite_over_existing(ctxr, &rt, j, ji, &log, &probes);
 		}
 		ctxr.state(total_ops as u64 + 1);
